@@ -253,7 +253,8 @@ def rule_sensitive_specs():
     """models whose result depends on the per-task priority rules, main workplaces and conveyor links"""
     out = []
     names = ["T0", "T1"]
-    for wrule, frule, wprule in (("HSV", "HSV", "SSP"), ("VC", "VC", "FSS"), ("MW", "SSP", "SSP"), ("SSP", "HSV", "FSS")):
+    combos = [(w, f, "SSP" if (i % 2) else "FSS") for i, (w, f) in enumerate(itertools.product(("MW", "SSP", "VC", "HSV"), ("SSP", "VC", "HSV")))]
+    for wrule, frule, wprule in combos:
         tasks = [{"name": "T0", "work": 3.0, "nf": True, "wrule": wrule, "frule": frule, "wprule": wprule},
                  {"name": "T1", "work": 2.0, "nf": True, "wrule": wrule, "frule": frule, "wprule": wprule}]
         comps = [{"name": "C0", "tasks": [0]}, {"name": "C1", "tasks": [1]}]
@@ -265,4 +266,15 @@ def rule_sensitive_specs():
             {"name": "W1", "skills": {"T0": 2.0, "T1": 0.5}, "fskills": dict(fsk), "cost": 1.0, "mainwp": "WP0"},
             {"name": "W2", "skills": {"T0": 0.5, "T1": 1.0, "x": 5.0}, "fskills": dict(fsk), "cost": 2.0}]}]
         out.append({"tasks": tasks, "links": [], "components": comps, "workplaces": wps, "teams": teams, "label": "rules:%s:%s:%s" % (wrule, frule, wprule)})
+    # one facility task worked by two (worker, facility) pairs whose pairing depends on the rules: the order inside the
+    # allocation lists differs from the order inside the team / workplace, and the pairs have different skill products
+    for wrule, frule in itertools.product(("HSV", "SSP", "VC"), ("SSP", "HSV", "VC")):
+        tasks = [{"name": "T0", "work": 9.0, "nf": True, "wrule": wrule, "frule": frule}, {"name": "T1", "work": 2.0}]
+        comps = [{"name": "C0", "tasks": [0]}]
+        wps = [{"name": "WP0", "cap": 1.0, "targets": [0], "facilities": [{"name": "F0", "skills": {"T0": 1.0}, "cost": 2.0}, {"name": "F1", "skills": {"T0": 2.0}, "cost": 1.0}]}]
+        teams = [{"name": "TM0", "targets": [0, 1], "workers": [
+            {"name": "W0", "skills": {"T0": 1.0, "x": 3.0}, "fskills": {"F0": 1.0, "F1": 1.0}, "cost": 1.0},
+            {"name": "W1", "skills": {"T0": 2.0}, "fskills": {"F0": 1.0, "F1": 1.0}, "cost": 2.0},
+            {"name": "W2", "skills": {"T1": 1.0}, "fskills": {}, "cost": 1.0}]}]
+        out.append({"tasks": tasks, "links": [], "components": comps, "workplaces": wps, "teams": teams, "label": "pairs:%s:%s" % (wrule, frule)})
     return out
